@@ -154,6 +154,8 @@ pub struct HistInner {
     /// abrupt_shutdown(code) calls: (side, code, step)
     pub abrupt: Vec<(u8, u32, u64)>,
     pub graceful: Vec<(u8, u64)>,
+    /// results of poll_reset waits: (side, sid, Ok(code) | Err(facts), step)
+    pub reset_polls: Vec<(u8, u32, Result<u32, ErrFacts>, u64)>,
 }
 
 #[derive(Debug, Clone)]
